@@ -17,6 +17,8 @@ import (
 // VsimEventStreamTables returns type -> subscriber paths and subscriber path -> types.
 func VsimEventStreamTables(s *System) (byType map[string][]string, bySubscriber map[string][]string) {
 	es := s.eventStream.(*eventStream)
+	es.mu.RLock()
+	defer es.mu.RUnlock()
 	byType, bySubscriber = map[string][]string{}, map[string][]string{}
 	for t, subs := range es.subscribers {
 		for p := range subs {
@@ -41,6 +43,8 @@ func VsimFutureRegistrations(s *System) (inRegistry []string, inAgents []string)
 		}
 		return true
 	})
+	s.futureLock.Lock()
+	defer s.futureLock.Unlock()
 	for agent, m := range s.futureAgents {
 		for p := range m {
 			inAgents = append(inAgents, agent+" -> "+p)
